@@ -16,6 +16,8 @@ CONSTANTS
   AllowReuse = TRUE
   AllowLin3 = FALSE
   AllowDrop = TRUE
+  AllowBnShare = FALSE
+  PlainOps = {"relu", "pool", "flat", "add"}
   AllowFindings = TRUE
   MaxHist = 1
 VIEW ViewNoHist
